@@ -1,5 +1,6 @@
 #!/bin/sh
-# builds the framework (from the directory this script lives in) against /repo's current working tree (offline)
+# builds the framework (from the directory this script lives in) against the repository's current working tree (offline).
+# VERIF_REPO=<dir> builds bin/vcheck-alt against a scratch copy of the repository instead of /repo.
 export GOFLAGS=-mod=mod GOPROXY=off GOSUMDB=off GOTOOLCHAIN=local
 set -e
 H=$(cd "$(dirname "$0")" && pwd)
@@ -8,4 +9,12 @@ cd $H
 mkdir -p bin .build
 go build -o bin/vinstr ./cmd/vinstr
 bin/vinstr
-go build -tags verif -overlay $H/.build/overlay.json -o bin/vcheck ./cmd/vcheck
+if [ -n "$VERIF_REPO" ]; then
+  T=${VERIF_ALT_TAG:-alt}
+  mkdir -p .build/$T
+  sed "s#=> /repo/luahelper-lsp#=> $VERIF_REPO/luahelper-lsp#" go.mod > .build/$T/go.mod
+  cp go.sum .build/$T/go.sum
+  go build -modfile=$H/.build/$T/go.mod -tags verif -overlay $H/.build/$T/overlay.json -o bin/vcheck-$T ./cmd/vcheck
+else
+  go build -tags verif -overlay $H/.build/overlay.json -o bin/vcheck ./cmd/vcheck
+fi
